@@ -204,6 +204,11 @@ def r3(prog, ev, rep):
         if not lab.startswith("Selector::"):
             continue
         bad = [d for c, d in cls if c == "unvalidated"]
+        if bad and all("(argument of " in d for d in bad):
+            # built by a pass-through constructor whose callers' values could not be followed: not a claim that no check exists
+            rep.unrecognised("C11-R3", "%s@%s" % (lab, p), T.loc(node) if node else prog.loc_of(p),
+                             "%s is built by a conversion whose argument could not be traced back to the range validator: %s" % (lab, "; ".join(bad)[:240]))
+            continue
         rep.check(not bad, "C11-R3", "%s@%s" % (lab, p), T.loc(node) if node else prog.loc_of(p), "range-checked",
                   "%s is stored without passing the range validator: %s" % (lab, "; ".join(bad)))
 
